@@ -197,6 +197,17 @@ func (v *env) one(k kase) {
 			e.Rep.Violate("gc-error", "first garbage collection failed: "+gerr.Error(), k)
 			return
 		}
+		nd := len(h.Done)
+		h.OrphanToNewGen()
+		for _, d := range h.Done[nd:] {
+			e.Rep.Hit("scenario:" + d)
+		}
+		for sc, why := range h.Skipped {
+			if strings.HasPrefix(sc, "orphan:") {
+				e.Rep.Hit("scenario-skipped:" + sc)
+				e.Rep.Note(fmt.Sprintf("seed %d: scenario %s skipped: %.200s", k.Seed, sc, why))
+			}
+		}
 		for _, q := range []string{
 			"UPDATE t1 SET v = 'round2' WHERE id % 5 = 1",
 			"CALL dolt_commit('-am', 'round 2')",
@@ -321,7 +332,8 @@ func (v *env) one(k kase) {
 	}
 	if ferr != nil {
 		key := "gc-loses-data"
-		if k.Writer != "" {
+		if k.Writer != "" && (strings.Contains(ferr.Error(), "root hash") || strings.Contains(ferr.Error(), "wtag") || strings.Contains(ferr.Error(), "wbranch")) {
+			// the store root / the refs the concurrent writer created are what is missing
 			key = "gc-loses-concurrent-write"
 		}
 		e.Rep.Violate(key, "after GC the database no longer loads through the public API: "+ferr.Error(), k)
